@@ -641,6 +641,7 @@ func condKeyword(cond ssa.Value, kw string) bool {
 					if !ok || cst.Value == nil || cst.Value.Kind() != constant.Bool || !constant.BoolVal(cst.Value) {
 						continue
 					}
+					codes := keywordBits(cond.Parent().Pkg, kw)
 					for d := b; d != nil; d = d.Idom() {
 						if id := d.Idom(); id != nil && len(id.Instrs) > 0 {
 							if iff, ok := id.Instrs[len(id.Instrs)-1].(*ssa.If); ok {
@@ -648,6 +649,23 @@ func condKeyword(cond ssa.Value, kw string) bool {
 									for _, side := range []ssa.Value{bo.X, bo.Y} {
 										if s, ok := constString(side); ok && strings.EqualFold(s, kw) && id.Succs[0] == d {
 											return true
+										}
+										// the word was looked up in a table first: the test compares the code the table gives the keyword
+										if k, ok := constInt(side); ok && codes[k] && id.Succs[0] == d {
+											other := bo.X
+											if side == bo.X {
+												other = bo.Y
+											}
+											fromTable := false
+											backslice(other, func(v ssa.Value) bool {
+												if _, isLk := v.(*ssa.Lookup); isLk {
+													fromTable = true
+												}
+												return !fromTable
+											})
+											if fromTable {
+												return true
+											}
 										}
 									}
 								}
